@@ -41,6 +41,93 @@ def _one(ctx, sc, entry, stats):
     return recs
 
 
+class _E(Exception):
+    def __init__(self, k):
+        super().__init__(k)
+        self.k = k
+
+
+def overlapping_calls(ctx, rng, n):
+    """Calls that OVERLAP on one policy object (a nested call made by the operation itself; two async calls
+    interleaved on one AsyncRetry): each call keeps its own counters, so each is still bound by the caps."""
+    from redress import AsyncRetry, ErrorClass, Policy, Retry, RetryPolicy
+
+    from .. import env
+
+    for i in range(n):
+        L = rng.randint(0, 2)
+        mu = rng.choice([None, 0, 1])
+        k_outer = rng.choice(["TRANSIENT", "UNKNOWN", "SERVER_ERROR"])
+        kw = dict(classifier=lambda e: ErrorClass[e.k], strategy=lambda c: 0.0, per_class_max_attempts={ErrorClass[k_outer]: L} if k_outer != "UNKNOWN" or rng.random() < 0.5 else {},
+                  max_unknown_attempts=mu, max_attempts=8, deadline_s=1000.0)
+        limit = kw["per_class_max_attempts"].get(ErrorClass[k_outer])
+        if k_outer == "UNKNOWN" and mu is not None:
+            limit = mu if limit is None else min(limit, mu)
+        if limit is None:
+            continue
+        desc = {"per_class": {k_outer: L}, "max_unknown": mu, "outer_class": k_outer}
+        world = env.World()
+        with env.active(world):
+            kind = rng.choice(["retry", "policy", "rp"])
+            pol = Retry(**kw) if kind == "retry" else Policy(retry=Retry(**kw)) if kind == "policy" else RetryPolicy(**kw)
+            outer_calls = [0]
+            inner_state = [0]
+
+            def inner():
+                inner_state[0] += 1
+                if inner_state[0] % 2:
+                    raise _E(rng.choice(["SERVER_ERROR", "TRANSIENT", "CONCURRENCY"]))
+                return "inner-ok"
+
+            def outer():
+                outer_calls[0] += 1
+                try:
+                    pol.call(inner, sleeper=lambda s_: None)
+                except _E:
+                    pass
+                raise _E(k_outer)
+
+            try:
+                pol.call(outer, sleeper=lambda s_: None)
+            except _E:
+                pass
+            ctx.inc("overlap_nested_runs")
+            ctx.inc("calls")
+            if outer_calls[0] - 1 > limit:
+                ctx.viol("cap-exceeded-under-overlapping-calls", f"[nested {kind}.call] outer call: {outer_calls[0] - 1} retries granted after {k_outer} failures, cap {limit} ({desc}); the operation made a nested call on the same policy object",
+                         {"overlap": "nested", "desc": desc, "kind": kind})
+            # two async calls interleaved on one AsyncRetry
+            apol = AsyncRetry(**kw)
+            counts = [0, 0]
+
+            def mk(j):
+                async def op():
+                    counts[j] += 1
+                    await env.Suspend("op")
+                    raise _E(k_outer)
+
+                async def sl(s_):
+                    await env.Suspend("sleep")
+
+                return apol.call(op, sleeper=sl)
+
+            live = {0: mk(0), 1: mk(1)}
+            while live:
+                j = rng.choice(sorted(live))
+                try:
+                    live[j].send(None)
+                except StopIteration:
+                    del live[j]
+                except _E:
+                    del live[j]
+            ctx.inc("overlap_async_runs")
+            ctx.inc("calls", 2)
+            for j in (0, 1):
+                if counts[j] - 1 > limit:
+                    ctx.viol("cap-exceeded-under-overlapping-calls", f"[two interleaved AsyncRetry.call] call {j}: {counts[j] - 1} retries granted after {k_outer} failures, cap {limit} ({desc})",
+                             {"overlap": "async", "desc": desc})
+
+
 def work(ctx, tier):
     stats = {}
     rng = common.rng_for(ctx, "main")
@@ -61,7 +148,7 @@ def work(ctx, tier):
     # 2. random scenarios, all features
     nrand = (6000 if tier == "quick" else 120000) // ctx.nshards * 1
     for k in range(nrand):
-        sc = gen.rand_scenario(rng, p_special=0.03, specials=("abort",), ncalls=(1, 2), placements=(k % 3 == 0))
+        sc = gen.rand_scenario(rng, p_special=0.03, specials=("abort",), ncalls=(1, 2), placements=(k % 3 == 0), p_exc_same=0.2, p_via_config=0.2)
         for e in common.pick_entries(rng, rig.ENTRIES, 3):
             _one(ctx, sc, e, stats)
         ctx.inc("random_scenarios")
@@ -88,6 +175,7 @@ def work(ctx, tier):
                     f"[{e}] call #{j} on a reused object differs from the same call on a fresh object at event {d}: {a[d:d + 2]} vs {b[d:d + 2]}; finals {fa} vs {fb}",
                     common.payload(sc, e, j, mode="reuse"),
                 )
+    overlapping_calls(ctx, rng, (400 if tier == "quick" else 8000) // ctx.nshards)
     if tier != "quick":
         common.repo_suite_under_monitors(ctx, "caps")
     common.flush_stats(ctx, stats)
@@ -103,6 +191,8 @@ def conclude(ctx):
                 floors[f"stop:{r}/{cause}/{fam}"] = (cells.get(f"stop:{r}/{cause}/{fam}", 0), 20)
     floors["reuse_pairs_compared"] = (ctx.cnt["reuse_pairs_compared"], 200)
     floors["runs_with_two_caps_tight"] = (ctx.cnt["runs_with_two_caps_tight"], 50)
+    floors["overlap_nested_runs"] = (ctx.cnt["overlap_nested_runs"], 50)
+    floors["overlap_async_runs"] = (ctx.cnt["overlap_async_runs"], 50)
     return dict(
         rule=(
             "bounded-exhaustive sweep (every outcome string up to length L over {ok, exc/res x TRANSIENT/UNKNOWN/PERMANENT} x 128 cap "
@@ -120,6 +210,9 @@ def conclude(ctx):
 
 def replay(data):
     p = data["payload"]
+    if "overlap" in p:
+        print("overlapping-call cases are generated from the seed; re-run `./check C01 --tier quick --seed", data.get("seed"), "`;", p)
+        return 1
     if p.get("mode") == "reuse":
         sc, e, j = p["scenario"], p["entry"], p["call"]
         recs, _, _ = rig.run(sc, e)
